@@ -182,7 +182,13 @@ impl Prop for C02 {
                 let s = String::from_utf8_lossy(&input).into_owned();
                 input = enc.encode(&s).0.into_owned();
             }
-            let mutating = ctx.rng.bool();
+            let long_tokens = i % 250 == 5;
+            if long_tokens {
+                // 3-12 KiB tokens that stay buffered over several writes (seeded C01-m5: schedule-dependent loss of buffered bytes)
+                input = crate::props::c01::gen_long_tokens(&mut ctx.rng);
+                ctx.count("long_token_documents");
+            }
+            let mutating = ctx.rng.bool() && !long_tokens;
             if mutating {
                 if let Ok(dry) = engine::run(&cfg, &input, &[]) {
                     mutgen::script_from_dry_run(&mut ctx.rng, &mut cfg, &dry, 3);
@@ -217,7 +223,17 @@ impl Prop for C02 {
                 }
                 ctx.count("docs_with_all_2cuts");
             }
-            schedules.push((1..len).collect());
+            if long_tokens {
+                for _ in 0..4 {
+                    let k = ctx.rng.range(4, 16);
+                    let mut c: Vec<usize> = (0..k).map(|_| ctx.rng.range(1, len.max(2) - 1)).collect();
+                    c.sort_unstable();
+                    c.dedup();
+                    schedules.push(c);
+                }
+            } else {
+                schedules.push((1..len).collect());
+            }
             for _ in 0..3 {
                 schedules.push(gen::random_cuts(&mut ctx.rng, len));
             }
